@@ -97,6 +97,8 @@ def same(a, b) -> bool:
         return a == b and sorted(map(repr, map(type, a))) == sorted(map(repr, map(type, b)))
     if isinstance(a, float):
         return a == b or (a != a and b != b)
+    if type(a).__name__ == "Decimal":
+        return a == b or (a.is_nan() and b.is_nan() and str(a) == str(b))
     if isinstance(a, complex):
         return same(a.real, b.real) and same(a.imag, b.imag)
     return a == b
